@@ -49,21 +49,29 @@ def full_vocabulary():
         v[b] = "pattern"
         for n in (1, 2, 5, 10, 37, 100):
             v[f"{b}-{n}"] = "pattern"
+        v[f"{b}-05"] = "pattern"      # the same spacing as -5 spelled differently: a class (and id) of its own
     for k in SHADOW_CLASSES:
         v[k] = "shadow"
     return v
 
 
-def document(classes, with_text, root=True, author=False, arrows_on_line=True):
-    """A document whose elements use exactly the given classes."""
+def document(classes, with_text, root=True, author=False, arrows_on_line=True, place="shape"):
+    """A document whose elements use exactly the given classes (place "tspan": the
+    classes are spread over the author-written <tspan> children of a <text>)."""
     line_cls = [k for k in classes if k in ARROW_CLASSES] if arrows_on_line else []
     rect_cls = [k for k in classes if k not in line_cls]
     body = ""
     if author:
         body += '<style>.mine { fill: red; } /* author */</style><defs><linearGradient id="lg"><stop offset="0" stop-color="red"/></linearGradient></defs>'
-    t = ' text="Label"' if with_text else ""
-    c = f' class="{" ".join(rect_cls)}"' if rect_cls else ""
-    body += f'<rect id="s" xy="0 0" wh="20 10"{c}{t}/>'
+    if place == "tspan":
+        body += '<rect id="s" xy="0 0" wh="20 10"/>'
+        parts = [rect_cls[:1], rect_cls[1:2], rect_cls[2:]]
+        spans = "".join(f'<tspan class="{" ".join(p)}">t{i}</tspan>' if p else f"<tspan>t{i}</tspan>" for i, p in enumerate(parts))
+        body += f'<text x="0" y="30">{spans}</text>'
+    else:
+        t = ' text="Label"' if with_text else ""
+        c = f' class="{" ".join(rect_cls)}"' if rect_cls else ""
+        body += f'<rect id="s" xy="0 0" wh="20 10"{c}{t}/>'
     if line_cls:
         body += f'<line id="l" xy1="0 20" xy2="20 20" class="{" ".join(line_cls)}"/>'
     return f"<svg>{body}</svg>" if root else body
